@@ -5,6 +5,7 @@
                                      5 Cancel a 6 Read 7 Done(id=a, err class=b) 8 Result a 9 AwaitCtx a 10 Shutdown
                                      11 Pick(object a) 12 Obj(request a carries object b) 13 Broadcast (cond API)
                                      14 CRead(consumer a) 15 CWake(consumer a) 16 Corrupt(stored copy of request a)
+                                     17 Offer(p=a, size=b) whose Marshal fails  18 Offer(p=a, size=b) whose storage write fails
      observation = (result code, Size(), cond.waiting, len(cond.ch), consumers parked un-signalled in Read); a negative component means
                    "not observed after this label" (intermediate step of a free-running thread). *)
 From Verif Require Import Common.Base C02.Model.
@@ -41,6 +42,8 @@ Definition label_of (z : zlab) : option label :=
   | 14 => Some (LCRead p)
   | 15 => Some (LCWake p)
   | 16 => Some (LCorrupt p)
+  | 17 => Some (LOfferF p b c_marshal)
+  | 18 => Some (LOfferF p b c_storeerr)
   | _ => None
   end.
 
